@@ -26,7 +26,7 @@ Definition cte (pk : nat) (q : squery) (rows : list row) : list row :=
 Definition outer (nd : nat) (aggs : list agg) (c : list row) : list (list val * list result) :=
   map (fun '(k, g) => (k, map (fun '(j, a) => apply_agg a (map (fun r => nth (nd + j) r VNull) g))
                               (combine (seq 0 (length aggs)) aggs)))
-      (groups (firstn nd) c).
+      (if Nat.eqb nd 0 then [([], c)] else groups (firstn nd) c).   (* no GROUP BY: one global group, even over zero rows *)
 Definition run_model (pk : nat) (q : squery) (rows : list row) :=
   outer (length (sq_dims q)) (map ms_agg (sq_metrics q)) (cte pk q rows).
 
@@ -36,7 +36,8 @@ Definition spec_metric (pk : nat) (m : measure) (g : list row) : result :=
   apply_agg (ms_agg m) (map (raw_base pk m) g').
 Definition spec (pk : nat) (q : squery) (rows : list row) : list (list val * list result) :=
   map (fun '(k, g) => (k, map (fun m => spec_metric pk m g) (sq_metrics q)))
-      (groups (fun r => map (eval r) (sq_dims q)) (filter (all_hold (sq_filters q)) rows)).
+      (let rows' := filter (all_hold (sq_filters q)) rows in
+       if Nat.eqb (length (sq_dims q)) 0 then [([], rows')] else groups (fun r => map (eval r) (sq_dims q)) rows').
 
 (* ---------- lemmas ---------- *)
 Lemma firstn_app_exact {A} (l1 l2 : list A) : firstn (length l1) (l1 ++ l2) = l1.
@@ -65,23 +66,16 @@ Proof.
 Qed.
 
 (* ---------- the theorem: generated plan = reference semantics, for every model, query and table ---------- *)
-Theorem C01_core pk q rows : run_model pk q rows = spec pk q rows.
+Lemma per_group pk q (g : list row) :
+  map (fun '(j, a) => apply_agg a (map (fun r => nth (length (sq_dims q) + j) r VNull)
+           (map (fun r => map (eval r) (sq_dims q) ++ map (fun m => raw_col pk m r) (sq_metrics q)) g)))
+      (combine (seq 0 (length (map ms_agg (sq_metrics q)))) (map ms_agg (sq_metrics q)))
+  = map (fun m => spec_metric pk m g) (sq_metrics q).
 Proof.
-  unfold run_model, outer, spec, cte.
-  set (rows' := filter (all_hold (sq_filters q)) rows).
   set (nd := length (sq_dims q)).
-  rewrite groups_map, map_map.
-  assert (Hk : forall r, firstn nd (map (eval r) (sq_dims q) ++ map (fun m => raw_col pk m r) (sq_metrics q)) = map (eval r) (sq_dims q)).
-  { intros r. unfold nd. rewrite <- (map_length (eval r) (sq_dims q)). apply firstn_app_exact. }
-  rewrite (groups_ext _ _ _ Hk).
-  apply map_ext. intros [k g]. f_equal.
-  rewrite map_length.
-  (* per metric j: column nd+j of the CTE rows of the group is raw_col of metric j *)
   transitivity (map (fun m => apply_agg (ms_agg m) (map (raw_col pk m) g)) (sq_metrics q)).
   2: { apply map_ext. intros m. apply raw_col_spec. }
-  rewrite <- (map_length ms_agg (sq_metrics q)).
   generalize (sq_metrics q) as ms. intros ms.
-  (* general statement over an arbitrary suffix of measures, by induction with an offset *)
   assert (forall (pre ms : list measure),
     map (fun '(j, a) => apply_agg a (map (fun r => nth (nd + j) r VNull)
              (map (fun r => map (eval r) (sq_dims q) ++ map (fun m => raw_col pk m r) (pre ++ ms)) g)))
@@ -97,5 +91,19 @@ Proof.
     - specialize (IH (pre ++ [m])). rewrite app_length in IH. cbn in IH. rewrite Nat.add_1_r in IH.
       rewrite <- app_assoc in IH. cbn in IH. exact IH. }
   apply (G [] ms).
+Qed.
+
+Theorem C01_core pk q rows : run_model pk q rows = spec pk q rows.
+Proof.
+  unfold run_model, outer, spec, cte.
+  set (rows' := filter (all_hold (sq_filters q)) rows).
+  set (nd := length (sq_dims q)).
+  destruct (Nat.eqb nd 0) eqn:E0.
+  - cbn [map]. f_equal. f_equal. apply per_group.
+  - rewrite groups_map, map_map.
+    assert (Hk : forall r, firstn nd (map (eval r) (sq_dims q) ++ map (fun m => raw_col pk m r) (sq_metrics q)) = map (eval r) (sq_dims q)).
+    { intros r. unfold nd. rewrite <- (map_length (eval r) (sq_dims q)). apply firstn_app_exact. }
+    rewrite (groups_ext _ _ _ Hk).
+    apply map_ext. intros [k g]. f_equal. apply per_group.
 Qed.
 Print Assumptions C01_core.
